@@ -75,13 +75,13 @@ def ShouldSelect (specs : List CodeId) (n : NodeFacts) : Prop :=
 also used as a value; specifications without value-match, and without receiver for methods -/
 def entryDomain (specs : List CodeId) (s : Site) : Bool :=
   (s.kind == .call) &&
-  ((s.form == .staticFn && !s.addrTaken) || s.form == .staticMethod) &&
+  ((s.form == .staticFn && !s.addrTaken && s.callee.recv == "") || s.form == .staticMethod) &&
   specs.all fun sp => sp.vmatch == "" && (sp.recv == "" || s.form == .staticFn)
 
 /-- sinks / sanitizers / validators on a call with a resolved callee: every Call / Go / Defer of a statically
 known function or method, every specification -/
 def sinkDomain (s : Site) (c : Fn) : Bool :=
-  (s.form == .staticFn || s.form == .staticMethod) && c == s.callee
+  ((s.form == .staticFn && s.callee.recv == "") || s.form == .staticMethod) && c == s.callee
 
 /-- call-argument graph nodes: as `sinkDomain`; when the callee has a summary the callee is also tested as a bare
 function (no context, no receiver, its own name as value-match), so those three fields must not be given -/
